@@ -92,6 +92,48 @@ def first_failure(assume, clauses, timeout_ms, stats, label):
     return None, None
 
 
+def merge_estimate_goals_decomposed(assume, pre, post, a, b, colk, sat_add, timeout_ms, stats, label):
+    """Estimate-level corollaries of a linear merge for deep shapes, by decomposition (each step a solver query):
+      (row)  for every row r, with the key's symbolic column c_r: R[r][c_r] == sat_add(A[r][c_r], B[r][c_r]);
+      (glue) for fresh per-row values with rr_r == sat_add(ra_r, rb_r): min(rr) >= min(ra), >= min(rb),
+             >= sat_add(min ra, min rb), and a MAX32 minimum on either side forces min(rr) == MAX32.
+    The estimates are min over rows of exactly those row values (kit.cm_est), so the corollaries follow by substitution.
+    Returns (None, None) | ('unknown', name) | ('sat', (name, model)) like first_failure; only a (row) failure yields a model."""
+    from .kit import select_col, umin
+    depth, width = a.cms.shape
+    A, B, R = pre[a.cms.sid], pre[b.cms.sid], post.heap[a.cms.sid]
+    assume = list(assume)
+    for r in range(depth):
+        sl = slice(r * width, (r + 1) * width)
+        va, vb, vr = select_col(A[sl], colk[r]), select_col(B[sl], colk[r]), select_col(R[sl], colk[r])
+        res, m = common.z3check(assume + [vr != sat_add(va, vb)], timeout_ms, stats, label=f"{label}: row {r} value of the key == sat_add of the operands' row values")
+        if res == "sat":
+            return "sat", (f"row {r}: merged value of the key's cell != min(a + b, 2^32-1)", m)
+        if res != "unsat":
+            return "unknown", f"row {r} lemma"
+    # glue lemma over the integers (= the unsigned values of the 32-bit cells; sat_add(x, y) is min(x + y, 2^32-1) there):
+    # bit-blasting the depth-8 statement does not finish, linear integer arithmetic decides it at once
+    ra = [z3.Int(f"g_ra{r}") for r in range(depth)]
+    rb = [z3.Int(f"g_rb{r}") for r in range(depth)]
+    rr = [z3.Int(f"g_rr{r}") for r in range(depth)]
+    imin = lambda x, y: z3.If(x <= y, x, y)
+    isat = lambda x, y: imin(x + y, z3.IntVal(MAX32))
+    link = [z3.And(x >= 0, x <= MAX32) for x in ra + rb] + [rr[r] == isat(ra[r], rb[r]) for r in range(depth)]
+
+    def mn(xs):
+        m_ = xs[0]
+        for x in xs[1:]:
+            m_ = imin(x, m_)
+        return m_
+    ea, eb, er = mn(ra), mn(rb), mn(rr)
+    for name, g in (("min(rr) >= min(ra) and >= min(rb)", z3.And(er >= ea, er >= eb)), ("min(rr) >= sat_add(min ra, min rb)", er >= isat(ea, eb)),
+                    ("ceiling is absorbing", z3.Implies(z3.Or(ea == MAX32, eb == MAX32), er == MAX32))):
+        res, m = common.z3check(link + [z3.Not(g)], timeout_ms, stats, label=f"{label}: integer glue lemma depth {depth}: {name}")
+        if res != "unsat":
+            return "unknown", f"glue lemma {name}: {res}"
+    return None, None
+
+
 # ----------------------------------------------------------------------------------------------- replays
 def _fresh_linear(width, depth):
     C = cm()
